@@ -28,6 +28,19 @@ type NPtr struct {
 
 func (*NPtr) EventTypeName() string { return "nptr.v1" }
 
+// names computed from the event's fields
+type NDyn struct {
+	A int `json:"a"`
+}
+
+func (n NDyn) EventTypeName() string { return fmt.Sprintf("ndyn.v%d", n.A) }
+
+type NDynP struct {
+	A int `json:"a"`
+}
+
+func (n *NDynP) EventTypeName() string { return fmt.Sprintf("ndynp.v%d", n.A) }
+
 type NTarget struct {
 	A int `json:"a"`
 }
@@ -62,6 +75,16 @@ func runShape[T any](k int, v T) string {
 		upfrom = e.Type == eb.EventType(NTarget{})
 		return nil
 	})
+	// the log after the upcasting replay went over it: same record, still matched by a typed subscription
+	storedAfter := "?"
+	if evs, _, _ := mem.Read(ctx, eb.OffsetOldest, 0); len(evs) == 1 {
+		storedAfter = evs[0].Type
+	}
+	n2 := 0
+	bus6 := eb.New(eb.WithStore(mem))
+	if err := eb.SubscribeWithReplay(ctx, bus6, "id2", func(e T) { n2++ }); err != nil {
+		return fmt.Sprintf("shape %d !subscribe2 %v", k, err)
+	}
 	// typed upcast with T as target
 	mem2 := eb.NewMemoryStore()
 	bus4 := eb.New(eb.WithStore(mem2))
@@ -75,7 +98,7 @@ func runShape[T any](k int, v T) string {
 		upto = e.Type
 		return nil
 	})
-	return fmt.Sprintf("shape %d stored=%s eventtype=%s replayed=%s upfrom=%s upto=%s", k, stored, eb.EventType(v), b01(n == 1), b01(upfrom), upto)
+	return fmt.Sprintf("shape %d stored=%s eventtype=%s replayed=%s upfrom=%s upto=%s storedafter=%s replayedafter=%s", k, stored, eb.EventType(v), b01(n == 1), b01(upfrom), upto, storedAfter, b01(n2 == 1))
 }
 
 func namesDomain(lines []string) []string {
@@ -108,6 +131,14 @@ func namesDomain(lines []string) []string {
 			out = append(out, runShape(k, state.ControlMessage{}))
 		case 9:
 			out = append(out, runShape(k, &state.ControlMessage{}))
+		case 10:
+			out = append(out, runShape(k, NDyn{7}))
+		case 11:
+			out = append(out, runShape(k, &NDyn{7}))
+		case 12:
+			out = append(out, runShape(k, NDynP{7}))
+		case 13:
+			out = append(out, runShape(k, &NDynP{7}))
 		default:
 			out = append(out, "bad-op "+line)
 		}
